@@ -682,7 +682,13 @@ func (r *resolution) isCurrentPinSatisfying(ctx context.Context, name resolve.Pa
 	// pin is listed as a candidate.
 	for _, c := range crit.candidates {
 		if c == currentPin {
-			return true
+			// The pin also has to have been made with all of the extras
+			// requested by now. Extras are only ever added to a
+			// criterion, so comparing sizes is enough. In pip a
+			// package with extras is a separate candidate; here the
+			// pin is redone so that its dependencies are collected
+			// again under the larger set of extras.
+			return len(crit.extras) == len(crit.pinnedExtras)
 		}
 	}
 	return false
@@ -760,6 +766,10 @@ func (r *resolution) attemptToPinCriterion(ctx context.Context, name resolve.Pac
 		for n, c := range criteria {
 			s.criteria.Put(n, c)
 		}
+		// Remember which extras the dependencies were collected for.
+		pinned, _ := s.criteria.Get(name)
+		pinned.pinnedExtras = crit.extras
+		s.criteria.Put(name, pinned)
 		debugf(r.p.rc, "--------------------------------\n")
 		return nil, nil
 	}
@@ -997,6 +1007,10 @@ type criterion struct {
 	// extras holds the union of all of the extras requested by each
 	// requirement in information.
 	extras map[string]bool
+	// pinnedExtras holds the value of extras at the time the package was
+	// last pinned: the extras its dependencies were collected for. The map
+	// is shared with (an earlier value of) extras and is never modified.
+	pinnedExtras map[string]bool
 	// incompatibilities holds concrete versions of this package known not
 	// to work. This is populated during backtracking: when candidates are
 	// discovered not to work they are moved from candidates to
@@ -1057,6 +1071,7 @@ func (c criterion) copy() criterion {
 		informationReqs:    c.informationReqs,
 		informationParents: c.informationParents,
 		extras:             extras,
+		pinnedExtras:       c.pinnedExtras,
 		incompatibilities:  incompatibilities,
 		candidates:         c.candidates,
 	}
